@@ -104,7 +104,9 @@ class ParCons(RankAggAlgorithm, PairwiseBasedAlgorithm):
                 # creation of a new Dataset representing the sub-problem
                 # the rankings containing no element of the sub-problem are kept (as empty rankings): they still
                 # contribute to the cost of each pair of elements of the sub-problem
-                sub_problem = dataset.sub_problem_from_elements(set_current_elements, keep_empty_rankings=True)
+                # its elements keep their type: the consensus of the sub-problem is a part of the final consensus
+                sub_problem = dataset.sub_problem_from_elements(set_current_elements, keep_empty_rankings=True,
+                                                                keep_element_types=True)
                 if len(scc_i) > self._bound_for_exact:
                     cons_ext = self._auxiliary_alg.compute_consensus_rankings(
                         sub_problem, scoring_scheme, True).consensus_rankings[0]
